@@ -50,3 +50,43 @@ Theorem c15_copy_parser_reported : forall sc reached n code h p r h',
   (reached = false /\ r = code /\ p = None /\ h' = h).
 Proof. exact copy_parser_reported. Qed.
 Print Assumptions c15_copy_parser_reported.
+
+From Coq Require Import String.
+From LW Require Import Base.CExpr Gen.Sites.
+Local Open Scope string_scope.
+Local Open Scope Z_scope.
+(* ---- the six SSID / channel setters AS TRANSLATED (Gen/Sites.v): count, then add, then remove the old element LAST and only when the addition succeeded; any failing step
+   ends the routine with its answer and nothing further is called.  setter_ok is defined in Proofs/CodeSetters.v; it quantifies over EVERY environment, so a local read before
+   it is assigned (a dropped initialiser) falsifies it - no_initialiser_refuted, remove_before_add_refuted show it on two altered bodies. ---- *)
+From LW Require Import Gen.Consts Proofs.CodeSetters.
+
+
+Theorem c15_code_set_beacon_ssid : setter_ok body_libwifi_set_beacon_ssid c_TAG_SSID "beacon->tags.length".
+Proof. exact code_set_beacon_ssid. Qed.
+Print Assumptions c15_code_set_beacon_ssid.
+
+
+Theorem c15_code_set_beacon_channel : setter_ok body_libwifi_set_beacon_channel c_TAG_DS_PARAMETER "beacon->tags.length".
+Proof. exact code_set_beacon_channel. Qed.
+Print Assumptions c15_code_set_beacon_channel.
+
+
+Theorem c15_code_set_probe_resp_ssid : setter_ok body_libwifi_set_probe_resp_ssid c_TAG_SSID "probe_resp->tags.length".
+Proof. exact code_set_probe_resp_ssid. Qed.
+Print Assumptions c15_code_set_probe_resp_ssid.
+
+
+Theorem c15_code_set_probe_resp_channel : setter_ok body_libwifi_set_probe_resp_channel c_TAG_DS_PARAMETER "probe_resp->tags.length".
+Proof. exact code_set_probe_resp_channel. Qed.
+Print Assumptions c15_code_set_probe_resp_channel.
+
+
+Theorem c15_code_set_assoc_resp_channel : setter_ok body_libwifi_set_assoc_resp_channel c_TAG_DS_PARAMETER "assoc_resp->tags.length".
+Proof. exact code_set_assoc_resp_channel. Qed.
+Print Assumptions c15_code_set_assoc_resp_channel.
+
+
+Theorem c15_code_set_reassoc_resp_channel : setter_ok body_libwifi_set_reassoc_resp_channel c_TAG_DS_PARAMETER "reassoc_resp->tags.length".
+Proof. exact code_set_reassoc_resp_channel. Qed.
+Print Assumptions c15_code_set_reassoc_resp_channel.
+
